@@ -45,6 +45,8 @@ SP_INT = {"$spec": {"t": "int"}}
 SP_INT1 = {"$spec": {"t": "int", "value": 1}}
 SP_STR = {"$spec": {"t": "str", "value": "a"}}
 SP_ANY = {"$spec": {"t": "any", "alts": [{"t": "int"}, {"t": "none"}]}}
+SP_DICT0 = {"$spec": {"t": "dict", "entries": [], "relaxed": False}}       # its repr holds braces
+SP_BRACES = {"$spec": {"t": "str", "value": "{x}"}}
 SP_ANYBARE = {"$spec": {"t": "any"}}        # accepts every value (the Ellipsis object included)
 # the version digit says 4, the variant bits are not RFC 4122's (UUID.version is None for them)
 U4_NCS = uuid.UUID("00000000-0000-4000-0000-000000000000")
@@ -65,12 +67,12 @@ UNIVERSE = {
     "int": _calls("__call__", [[0], [1], [-1], [2 ** 63], [10 ** 400], [True], [1.0], ["1"], [None], [E], [NIL]])
     + _calls("min", [[0], [1], [2], [-1], [2 ** 70], [-(2 ** 1030)], [True], [0.5], ["0"], [None], [E]])
     + _calls("max", [[0], [1], [2], [-1], [-2 ** 70], [False], [0.5], ["0"], [None], [NIL]]),
-    "float": _calls("__call__", [[0.5], [1.0], [-0.0], [float("inf")], [float("nan")], [1], [True],
+    "float": _calls("__call__", [[0.5], [0.54], [1.0], [-0.0], [float("inf")], [float("nan")], [1], [True],
                                  ["1.0"], [None], [E]])
     + _calls("min", [[0.5], [1.0], [0.0], [0.54], [float("inf")], [float("nan")], [1], [None], ["x"]])
     + _calls("max", [[0.5], [1.0], [0.0], [0.46], [float("-inf")], [float("nan")], [0], [None], [NIL]])
     + _calls("precision", [[1], [2], [15], [0], [16], [-1], [True], [1.0], ["2"], [None], [2 ** 63]]),
-    "str": _calls("__call__", [["ab"], [""], ["a"], ["abc"], [1], [b"ab"], [None], [E], [["a"]]])
+    "str": _calls("__call__", [["ab"], [""], ["a"], ["abc"], ["{}"], ["{0}%s"], [1], [b"ab"], [None], [E], [["a"]]])
     + _calls("len", LEN1 + LEN2)
     + _calls("alphabet", [["ab"], ["a"], [""], ["abc "], [1], [None], [["a", "b"]], [b"ab"]])
     + _calls("contains", [["a"], ["ab"], ["c"], [""], [1], [None], [b"a"], [E]])
@@ -78,7 +80,7 @@ UNIVERSE = {
                        [Zoo("re_compiled_icase")], ["x{2}"]]),
     "list": _calls("__call__", [[[]], [[SP_INT1]], [[SP_INT1, SP_STR]], [[SP_INT, E]], [[E, SP_INT]],
                                 [[E, SP_INT, E]], [[E]], [[E, E]], [[SP_INT, E, SP_INT]],
-                                [[SP_ANYBARE, SP_INT1]], [[SP_INT1, SP_ANYBARE]], [[SP_INT, SP_STR]], [[SP_ANYBARE, E]],
+                                [[SP_ANYBARE, SP_INT1]], [[SP_DICT0]], [[SP_BRACES, E]], [[SP_INT1, SP_ANYBARE]], [[SP_INT, SP_STR]], [[SP_ANYBARE, E]],
                                 [[E, E, E]], [SP_INT], [SP_ANY], [[1]], [[None]], [(SP_INT,)],
                                 [None], ["ab"], [{}], [E], [NIL], [[[SP_INT]]]])
     + _calls("len", LEN1 + LEN2),
